@@ -211,7 +211,7 @@ def expected_model_answer(ref, exp_results):
 
 
 def gen_session(rng, nops=None, rotations=False, compress="n", target="fd", nbps=None, maxes=None, simple_bp=True,
-                stats_p=0.3, end_flush=True, late_bps=False):
+                stats_p=0.3, end_flush=True, late_bps=False, same_name_p=0.0):
     """random session -> (line, ref, expected results)"""
     pools = G.Pools(rng)
     nb = nbps or rng.choice([1, 1, 2, 3])
@@ -254,7 +254,8 @@ def gen_session(rng, nops=None, rotations=False, compress="n", target="fd", nbps
             ops.append(("C",))
         elif rotations and k < 99:
             export = rng.randrange(2)
-            ops.append(("R", target, export)); shadow.rotate(bool(export))
+            # (named outputs) sometimes the new name is the name of the output that is open
+            ops.append(("R", "same" if target == "nm" and rng.random() < same_name_p else target, export)); shadow.rotate(bool(export))
         elif late_bps:
             bp = G.gen_bp(rng, simple=simple_bp, tps=tps)
             ops.append(("AB", bp)); shadow.add_bp(bp)
